@@ -1,4 +1,4 @@
-(** Model of src/epd2in13b_v4/mod.rs — STUB, not yet transcribed. *)
+(** Model of src/epd2in13b_v4/mod.rs (+ the value helpers of src/epd2in13b_v4/command.rs). *)
 From Coq Require Import List NArith Bool.
 From EPD Require Import Iface Ops Drv.Luts.
 Import ListNotations.
@@ -8,11 +8,183 @@ Open Scope m_scope.
 Module Epd2in13b_v4.
 Definition WIDTH : N := 122.
 Definition HEIGHT : N := 250.
+Definition IS_BUSY_LOW := false.
 
-Definition init : M unit := ret tt.
+(** crate::buffer_len *)
+Definition buffer_len (width height : N) : N := (width + 7) / 8 * height.
 
-Definition exec (k : N) (o : op) : option (M rval) := None.
+(** ** command.rs: value types *)
+
+(** bit_field::BitField on u8 *)
+Definition set_bit (x k : N) (b : bool) : N := if b then N.setbit x k else N.clearbit x k.
+(** [set_bits x lo hi v] = x.set_bits(lo..hi, v)  (v fits in every use) *)
+Definition set_bits (x lo hi v : N) : N :=
+  bor (N.ldiff x (shl (N.ones (hi - lo)) lo)) (shl v lo).
+
+(** DriverOutput::to_bytes *)
+Record DriverOutput := mkDriverOutput {
+  scan_is_linear : bool; scan_g0_is_first : bool; scan_dir_incr : bool; do_width : N (* u16 *) }.
+Definition DriverOutput_to_bytes (o : DriverOutput) : list N :=
+  [ u8 (do_width o); u8 (shr (do_width o) 8);
+    set_bit (set_bit (set_bit 0 0 (negb (scan_dir_incr o))) 1 (negb (scan_g0_is_first o)))
+            2 (negb (scan_is_linear o)) ].
+
+(** enum discriminants *)
+Definition RamOption_Normal : N := 0x0.
+Definition XIncrYIncr : N := 0x3.      (* DataEntryModeIncr *)
+Definition XDir : N := 0x0.            (* DataEntryModeDir *)
+Definition Vbd_Gs : N := 0x0.          (* BorderWaveFormVbd *)
+Definition Fix_Vss : N := 0x0.         (* BorderWaveFormFixLevel *)
+Definition Gs_Lut3 : N := 0x3.         (* BorderWaveFormGs *)
+Definition DeepSleep_Normal : N := 0x00. (* DeepSleepMode *)
+
+(** DisplayUpdateControl::to_bytes *)
+Record DisplayUpdateControl := mkDisplayUpdateControl {
+  red_ram_option : N; bw_ram_option : N; source_output_mode : bool }.
+Definition DisplayUpdateControl_to_bytes (d : DisplayUpdateControl) : list N :=
+  [ bor (u8 (shl (red_ram_option d) 4)) (bw_ram_option d);
+    if source_output_mode d then 128 else 0 ].
+
+(** BorderWaveForm::to_u8 *)
+Record BorderWaveForm := mkBorderWaveForm { vbd : N; fix_level : N; gs_trans : N }.
+Definition BorderWaveForm_to_u8 (b : BorderWaveForm) : N :=
+  set_bits (set_bits (set_bits 0 6 8 (vbd b)) 4 6 (fix_level b)) 0 2 (gs_trans b).
+
+(** TriColor::get_byte_value *)
+Definition get_byte_value (c : N) : N := if c =? cWhite then 0xff else 0x00.
+
+(** ** mod.rs *)
+Definition wait_until_idle : M unit := wait_idle IS_BUSY_LOW.
+
+Definition command (c : N) : M unit := cmd c.
+
+Definition set_display_update_control (display_update_control : DisplayUpdateControl) : M unit :=
+  cmd_with_data 0x21 (DisplayUpdateControl_to_bytes display_update_control).
+
+Definition set_border_waveform (borderwaveform : BorderWaveForm) : M unit :=
+  cmd_with_data 0x3C [BorderWaveForm_to_u8 borderwaveform].
+
+Definition set_sleep_mode (mode : N) : M unit :=
+  cmd_with_data 0x10 [mode].
+
+Definition set_driver_output (output : DriverOutput) : M unit :=
+  cmd_with_data 0x01 (DriverOutput_to_bytes output).
+
+Definition set_data_entry_mode (counter_incr_mode counter_direction : N) : M unit :=
+  let mode := bor counter_incr_mode counter_direction in
+  cmd_with_data 0x11 [mode].
+
+Definition set_ram_area (start_x start_y end_x end_y : N) : M unit :=
+  cmd_with_data 0x44 [u8 (shr start_x 3); u8 (shr end_x 3)] ;;
+  cmd_with_data 0x45 [u8 start_y; u8 (shr start_y 8); u8 end_y; u8 (shr end_y 8)].
+
+Definition set_ram_address_counters (x y : N) : M unit :=
+  wait_until_idle ;;
+  cmd_with_data 0x4E [u8 (shr x 3)] ;;
+  cmd_with_data 0x4F [u8 y; u8 (shr y 8)].
+
+Definition init : M unit :=
+  reset 10000 10000 ;;
+  wait_until_idle ;;
+  cmd 0x12 ;;
+  wait_until_idle ;;
+  set_driver_output (mkDriverOutput true true true (HEIGHT - 1)) ;;
+  set_data_entry_mode XIncrYIncr XDir ;;
+  set_ram_area 0 0 (WIDTH - 1) (HEIGHT - 1) ;;
+  set_ram_address_counters 0 0 ;;
+  set_border_waveform (mkBorderWaveForm Vbd_Gs Fix_Vss Gs_Lut3) ;;
+  cmd_with_data 0x2C [0x36] ;;
+  cmd_with_data 0x03 [0x17] ;;
+  cmd_with_data 0x04 [0x41; 0x00; 0x32] ;;
+  set_display_update_control (mkDisplayUpdateControl RamOption_Normal RamOption_Normal true) ;;
+  wait_until_idle.
+
+(** WaveshareThreeColorDisplay *)
+Definition update_achromatic_frame (black : dexp) : M unit :=
+  cmd 0x24 ;;
+  data_e black.
+
+Definition update_chromatic_frame (chromatic : dexp) : M unit :=
+  cmd 0x26 ;;
+  data_e chromatic.
+
+Definition update_color_frame (black chromatic : dexp) : M unit :=
+  update_achromatic_frame black ;;
+  update_chromatic_frame chromatic.
+
+(** WaveshareDisplay *)
+Definition sleep : M unit :=
+  set_sleep_mode DeepSleep_Normal.
+
+Definition update_frame (k len : N) : M unit :=
+  assert (len =? buffer_len WIDTH HEIGHT) ;;
+  cmd_with_data_e 0x24 (DArg k 0 0 len) ;;
+  command 0x26 ;;
+  data_x_times (get_byte_value cBlack) (buffer_len WIDTH HEIGHT).
+
+Definition update_partial_frame : M unit := panic.   (* unimplemented!() *)
+
+Definition display_frame : M unit :=
+  command 0x20 ;;
+  wait_until_idle.
+
+Definition update_and_display_frame (k len : N) : M unit :=
+  update_frame k len ;;
+  display_frame.
+
+(** every arm sends Command::WriteRam *)
+Definition clear_achromatic_frame : M unit :=
+  s <- get ;;
+  if bg s =? cWhite then
+    command 0x24 ;;
+    data_x_times 0xFF (buffer_len WIDTH HEIGHT)
+  else if bg s =? cChromatic then
+    command 0x24 ;;
+    data_x_times 0xFF (buffer_len WIDTH HEIGHT)
+  else
+    command 0x24 ;;
+    data_x_times 0x00 (buffer_len WIDTH HEIGHT).
+
+(** every arm sends Command::WriteRam here too (not WriteRamRed) *)
+Definition clear_chromatic_frame : M unit :=
+  s <- get ;;
+  if bg s =? cWhite then
+    command 0x24 ;;
+    data_x_times 0x00 (buffer_len WIDTH HEIGHT)
+  else if bg s =? cChromatic then
+    command 0x24 ;;
+    data_x_times 0xFF (buffer_len WIDTH HEIGHT)
+  else
+    command 0x24 ;;
+    data_x_times 0x00 (buffer_len WIDTH HEIGHT).
+
+Definition clear_frame : M unit :=
+  clear_achromatic_frame ;;
+  clear_chromatic_frame.
+
+Definition set_lut : M unit := panic.   (* unimplemented!() *)
+
+Definition exec (k : N) (o : op) : option (M rval) :=
+  match o with
+  | OSleep => unit_ sleep
+  | OWakeUp => unit_ init
+  | OSetBg c => unit_ (modify (set_bg c))
+  | OGetBg => Some (s <- get ;; ret (RColor (bg s)))
+  | OWidth => Some (ret (RNum WIDTH))
+  | OHeight => Some (ret (RNum HEIGHT))
+  | OUpdateFrame len => unit_ (update_frame k len)
+  | OUpdatePartial _ _ _ _ _ => unit_ update_partial_frame
+  | ODisplay => unit_ display_frame
+  | OUpdateAndDisplay len => unit_ (update_and_display_frame k len)
+  | OClear => unit_ clear_frame
+  | OSetLut _ => unit_ set_lut
+  | OWaitIdle => unit_ wait_until_idle
+  | OUpdateColor l1 l2 => unit_ (update_color_frame (DArg k 0 0 l1) (DArg k 1 0 l2))
+  | OUpdateAchromatic len => unit_ (update_achromatic_frame (DArg k 0 0 len))
+  | OUpdateChromatic len => unit_ (update_chromatic_frame (DArg k 0 0 len))
+  | _ => None
+  end.
 
 Definition drv (ft : feat) : driver :=
-  mkDriver WIDTH HEIGHT true d0 init exec.
+  mkDriver WIDTH HEIGHT true (mkD cWhite 0 false false 0 None) init exec.
 End Epd2in13b_v4.
